@@ -138,17 +138,16 @@ registered in the term directory — for a type with reference unit, the
 normalised definition of its reference unit: the product of the base types'
 reference units, with factor 1 — and it carries exactly the exponents the term
 `t` (e.g. `u·v`, `u/v`, `u^n`) denotes.  Then the resolution of `t` does not
-fail, whatever numeric factor `t` carries.  (`K` is a constructed normal form:
-`hKnf`, `hKmk`.  With a registered unit of that dimension but another factor
+fail, whatever numeric factor `t` carries.  (`K` is a normal form: `hKnf`.  With a registered unit of that dimension but another factor
 only, the second look-up misses: known finding D2.) -/
 theorem resolution_complete (r : RegState)
     (hd : DefsBaseOnly r.unitEnv) (hnc : BaseNoConv r.unitEnv)
     (t : Items) (ht : Clean t) (K : Items) (w : Nat) (hK : (K, w) ∈ r.termMap)
-    (hKnf : normalizedItems r.unitEnv K = K) (hKmk : mkTerm r.unitEnv K = K)
+    (hKnf : normalizedItems r.unitEnv K = K)
     (hK1 : numVal K = 1) (hsep : KeysSeparate r.unitEnv t K)
     (hexp : ∀ a, expOf a (expanded r.unitEnv t) = expOf a K) :
     r.amntAndUnit t ≠ none :=
-  amntAndUnit_complete r hd hnc t ht K w hK hKnf hKmk hK1 hsep hexp
+  amntAndUnit_complete r hd hnc t ht K w hK hKnf hK1 hsep hexp
 
 /-- ... so `unit × unit` raises UndefinedResultError only if no such unit is
 registered (with `unit_product_undefined_iff`: exactly then, for types with
@@ -158,14 +157,14 @@ theorem unit_product_defined_of_registered_dimension (u v : Nat)
     (hd : DefsBaseOnly s.reg.unitEnv) (hnc : BaseNoConv s.reg.unitEnv)
     (ht : Clean (mkTerm s.reg.unitEnv [(.atom u, 1), (.atom v, 1)]))
     (K : Items) (w : Nat) (hK : (K, w) ∈ s.reg.termMap)
-    (hKnf : normalizedItems s.reg.unitEnv K = K) (hKmk : mkTerm s.reg.unitEnv K = K)
+    (hKnf : normalizedItems s.reg.unitEnv K = K)
     (hK1 : numVal K = 1)
     (hsep : KeysSeparate s.reg.unitEnv (mkTerm s.reg.unitEnv [(.atom u, 1), (.atom v, 1)]) K)
     (hexp : ∀ a, expOf a (expanded s.reg.unitEnv
         (mkTerm s.reg.unitEnv [(.atom u, 1), (.atom v, 1)])) = expOf a K) :
     (s.mulUnits u v).2 ≠ .error .UndefinedResultError := by
   rw [Ne, unit_product_undefined_iff u v hmiss]
-  exact amntAndUnit_complete s.reg hd hnc _ ht K w hK hKnf hKmk hK1 hsep hexp
+  exact amntAndUnit_complete s.reg hd hnc _ ht K w hK hKnf hK1 hsep hexp
 
 /-- the same for EVERY state reachable by declarations (valid or rejected, in
 any order) with a fresh operation cache: the directory invariant is not an
